@@ -2,20 +2,34 @@
 //
 // usage: verif_lint <seed> <nfiles> <repo-root> [cli-sample]     generated files
 //
-//	verif_lint replay <hex of a DBC text>                   one given file
+//	verif_lint replay <hex of a DBC text> [repo-root]       one given file (with repo-root: also through cantool lint)
 //
 // For every generated DBC text the harness parses it with the real parser and prints one block
 //
 //	FILE <n> <category> <hex of the text>
-//	PARSE ok|err
+//	PARSE ok | PARSE err <line>:<column>:<offset> <reason>
 //	DEF ... / SIG ...          canonical dump of the parsed definitions (harness/dbccommon/dump.go)
 //	DATA <hex of File.Data>
 //	DIAG <pass> ok|panic|error <count> {<line>:<column>:<hex of the message text>}
 //	                           one line per analyzer (all 20), diagnostics in the order reported
 //	PURE <passes that changed the File, or ->      deep comparison of the File before/after each pass
 //	ORDER <passes whose diagnostics differ when the passes run in the reverse order, or ->
-//	CLI <0|1>                  (subsample) exit status != 0 of the real `cantool lint <file>` binary
+//	CLI1 <path> <exit status> <stdout> <stderr>      the real `cantool lint <path>` binary on this file alone
+//	CLIB <batch> <path>        the file is a member of directory batch <batch> (linted by one `cantool lint <dir>`)
 //	END
+//
+// and, between blocks, for every directory batch
+//
+//	BATCH <batch> <exit status> <stdout> <stderr>    `cantool lint <dir>`; members in the order of their blocks
+//	CLIR <batch> <n> <exit status> <stdout> <stderr> only when the batch run did not exit with status 0 or 1 (a crash
+//	                           hides the files after it): every member linted alone, under the same path
+//	BATCHEND <batch>
+//
+// The complete standard output is handed to the driver, which compares it byte for byte with the output the Coq
+// model of the command (Dbc/LintCli.v) owes. Degenerate and boundary files (empty, blank, last line without line
+// feed with a diagnostic on it in column 1 / > 1, diagnostic on line 1, CRLF, truncated files = parse errors at the
+// very end, many diagnostics of many passes) are always linted, one invocation each; the other sampled files in
+// directory batches next to decoy files without the .dbc extension.
 //
 // Category "synthetic": the parsed definitions were perturbed in memory before the dump (values
 // the parser cannot produce: M+m signals, NaN bounds, huge sizes, invalid UTF-8 ...).
@@ -27,6 +41,7 @@ package main
 import (
 	"bufio"
 	"bytes"
+	"context"
 	"encoding/hex"
 	"fmt"
 	"math"
@@ -36,6 +51,7 @@ import (
 	"path/filepath"
 	"strconv"
 	"strings"
+	"time"
 	"unicode"
 
 	"go.einride.tech/can/internal/identifiers"
@@ -121,11 +137,31 @@ func snapshot(f *dbc.File) string {
 	return b.String()
 }
 
-func checkFile(w *bufio.Writer, n int, category string, text []byte, perturb func(*dbc.File), cli *cliRunner) {
+type cliMode int
+
+const (
+	cliNone   cliMode = iota
+	cliSingle         // one invocation for this file
+	cliBatch          // member of a directory batch
+)
+
+func checkFile(w *bufio.Writer, n int, category string, text []byte, perturb func(*dbc.File), cli *cliRunner, mode cliMode) {
 	fmt.Fprintf(w, "FILE %x %s %s\n", n, category, hex.EncodeToString(text))
+	cliLine := func() {
+		if cli == nil || perturb != nil {
+			return
+		}
+		switch mode {
+		case cliSingle:
+			fmt.Fprintln(w, cli.single(n, text))
+		case cliBatch:
+			fmt.Fprintln(w, cli.add(n, text))
+		}
+	}
 	p := dbc.NewParser("f.dbc", text)
 	if err := p.Parse(); err != nil {
-		fmt.Fprintln(w, "PARSE err")
+		fmt.Fprintf(w, "PARSE err %s %s\n", dP(err.Position()), dS(err.Reason()))
+		cliLine()
 		fmt.Fprintln(w, "END")
 		return
 	}
@@ -165,17 +201,25 @@ func checkFile(w *bufio.Writer, n int, category string, text []byte, perturb fun
 	} else {
 		fmt.Fprintf(w, "ORDER %s\n", strings.Join(differ, ","))
 	}
-	if cli != nil && perturb == nil {
-		fmt.Fprintf(w, "CLI %s\n", cli.run(text))
-	}
+	cliLine()
 	fmt.Fprintln(w, "END")
 }
 
 // ---------------------------------------------------------------------------- cantool lint
 
+const batchSize = 25
+
+type batchMember struct {
+	n    int
+	path string
+}
+
 type cliRunner struct {
 	dir, exe string
 	ok       bool
+	batchID  int
+	batchDir string
+	batch    []batchMember
 }
 
 func newCliRunner(repo string) *cliRunner {
@@ -191,28 +235,95 @@ func newCliRunner(repo string) *cliRunner {
 		fmt.Fprintf(os.Stderr, "cantool build failed: %v\n%s\n", err, out)
 		return c
 	}
+	if os.MkdirAll(filepath.Join(dir, "s"), 0o700) != nil {
+		return c
+	}
 	c.ok = true
 	return c
 }
 
-func (c *cliRunner) run(text []byte) string {
+func hexOrDash(b []byte) string {
+	if len(b) == 0 {
+		return "-"
+	}
+	return hex.EncodeToString(b)
+}
+
+// lint runs `cantool lint <arg>` and renders "<exit status> <stdout> <stderr>".
+func (c *cliRunner) lint(arg string) (result string, exit int) {
 	if !c.ok {
-		return "buildfail"
+		return "buildfail - -", -3
 	}
-	fn := filepath.Join(c.dir, "f.dbc")
-	if err := os.WriteFile(fn, text, 0o600); err != nil {
-		return "ioerr"
-	}
-	cmd := exec.Command(c.exe, "lint", fn)
-	cmd.Stdout, cmd.Stderr = nil, nil
+	ctx, cancel := context.WithTimeout(context.Background(), 60*time.Second)
+	defer cancel()
+	cmd := exec.CommandContext(ctx, c.exe, "lint", arg)
+	cmd.Env = append(os.Environ(), "TERM=dumb", "NO_COLOR=1", "GOTRACEBACK=single")
+	var stdout, stderr bytes.Buffer
+	cmd.Stdout, cmd.Stderr = &stdout, &stderr
 	err := cmd.Run()
-	if err == nil {
-		return "0"
+	status := "0"
+	if err != nil {
+		if ee, isExit := err.(*exec.ExitError); isExit {
+			exit = ee.ExitCode() // -1: killed by a signal / the time limit
+			status = strconv.Itoa(exit)
+		} else {
+			exit = -2
+			status = "ioerr"
+		}
 	}
-	if _, isExit := err.(*exec.ExitError); isExit {
-		return "1"
+	return fmt.Sprintf("%s %s %s", status, hexOrDash(stdout.Bytes()), hexOrDash(stderr.Bytes())), exit
+}
+
+// single lints one file by an invocation of its own.
+func (c *cliRunner) single(n int, text []byte) string {
+	path := filepath.Join(c.dir, "s", fmt.Sprintf("%06d.dbc", n))
+	if c.ok {
+		if err := os.WriteFile(path, text, 0o600); err != nil {
+			return fmt.Sprintf("CLI1 %s ioerr - -", hex.EncodeToString([]byte(path)))
+		}
+		defer os.Remove(path)
 	}
-	return "ioerr"
+	res, _ := c.lint(path)
+	return fmt.Sprintf("CLI1 %s %s", hex.EncodeToString([]byte(path)), res)
+}
+
+// add makes the file a member of the current directory batch (file names in lexical order = order of the members).
+func (c *cliRunner) add(n int, text []byte) string {
+	if len(c.batch) == 0 {
+		c.batchID++
+		c.batchDir = filepath.Join(c.dir, fmt.Sprintf("b%04d", c.batchID))
+		if c.ok {
+			_ = os.MkdirAll(c.batchDir, 0o700)
+			// decoys: resolveFileOrDirectory takes files with the extension .dbc only
+			_ = os.WriteFile(filepath.Join(c.batchDir, "000000.txt"), []byte("BO_ 1 not_a_dbc_file: 8 Ghost\r\n"), 0o600)
+			_ = os.WriteFile(filepath.Join(c.batchDir, "zzzzzz.dbc.bak"), []byte("VERSION \"decoy\"\r\n"), 0o600)
+			_ = os.WriteFile(filepath.Join(c.batchDir, "README"), []byte("BU_: A A\n"), 0o600)
+		}
+	}
+	path := filepath.Join(c.batchDir, fmt.Sprintf("%06d.dbc", n))
+	if c.ok {
+		_ = os.WriteFile(path, text, 0o600)
+	}
+	c.batch = append(c.batch, batchMember{n, path})
+	return fmt.Sprintf("CLIB %x %s", c.batchID, hex.EncodeToString([]byte(path)))
+}
+
+// flush lints the current batch directory; after an abnormal end every member is linted alone.
+func (c *cliRunner) flush(w *bufio.Writer, force bool) {
+	if len(c.batch) == 0 || (!force && len(c.batch) < batchSize) {
+		return
+	}
+	res, exit := c.lint(c.batchDir)
+	fmt.Fprintf(w, "BATCH %x %s\n", c.batchID, res)
+	if exit != 0 && exit != 1 {
+		for _, m := range c.batch {
+			r, _ := c.lint(m.path)
+			fmt.Fprintf(w, "CLIR %x %x %s\n", c.batchID, m.n, r)
+		}
+	}
+	fmt.Fprintf(w, "BATCHEND %x\n", c.batchID)
+	os.RemoveAll(c.batchDir)
+	c.batch = nil
 }
 
 func (c *cliRunner) close() {
@@ -325,6 +436,10 @@ type knobs struct {
 	big                                                                 bool
 	// near-collisions: keys that are almost, but not, equal (must NOT be confused by the passes)
 	nearMsgID, nearNode, sameSigAcross, nearVal, nearRef, muxEdge, startEdge, nearUnit int
+	// placement: redundant VERSION / NS_ / BS_ / BU_ definitions anywhere in the file (after messages, comments,
+	// attributes ...), and a file that starts with a BO_
+	lateSingleton int
+	boFirst       bool
 }
 
 var neutralUnits = []string{"", "", "", "V", "A", "rpm", "mNm", "s", "degC"}
@@ -1233,6 +1348,43 @@ func (g *gen) build(k knobs) string {
 			}
 		}
 	}
+	// ---- redundant singleton definitions at any place of the file, mostly after the first message
+	for i := 0; i < k.lateSingleton && len(b.chunks) > 0; i++ {
+		firstBO := -1
+		for j, c := range b.chunks {
+			if c.rank == 5 {
+				firstBO = j
+				break
+			}
+		}
+		at := g.r.Intn(len(b.chunks) + 1)
+		if firstBO >= 0 && g.chance(0.75) {
+			at = g.between(firstBO+1, len(b.chunks))
+		}
+		var c chunk
+		switch g.r.Intn(5) {
+		case 0:
+			c = chunk{0, "VERSION \"\""}
+		case 1:
+			c = chunk{1, "NS_ :"}
+		case 2:
+			c = chunk{2, g.choose("BS_:", "BS_ :", "BS_: 500")}
+		case 3:
+			c = chunk{3, "BU_: " + b.uniq(g.camel)}
+		default:
+			c = chunk{3, "BU_:"}
+		}
+		b.chunks = append(b.chunks[:at], append([]chunk{c}, b.chunks[at:]...)...)
+	}
+	if k.boFirst {
+		for j, c := range b.chunks {
+			if c.rank == 5 {
+				rest := append(append([]chunk{}, b.chunks[:j]...), b.chunks[j+1:]...)
+				b.chunks = append([]chunk{c}, rest...)
+				break
+			}
+		}
+	}
 	var sb strings.Builder
 	for _, c := range b.chunks {
 		sb.WriteString(c.text)
@@ -1326,6 +1478,7 @@ var knobNames = []string{
 	"dupVersion", "dupNS", "dupBS", "dupBU", "nonSI", "dupMsgID", "dupNode", "dupSig", "badSuffix", "badValDesc",
 	"versionText", "pseudo", "combo", "unknownFirst", "topLevelSignal",
 	"nearMsgID", "nearNode", "sameSigAcross", "nearVal", "nearRef", "muxEdge", "startEdge", "nearUnit",
+	"lateSingleton", "boFirst",
 }
 
 func (k *knobs) set(name string, n int) {
@@ -1424,6 +1577,10 @@ func (k *knobs) set(name string, n int) {
 		k.startEdge = n
 	case "nearUnit":
 		k.nearUnit = n
+	case "lateSingleton":
+		k.lateSingleton = n
+	case "boFirst":
+		k.boFirst = n > 0
 	default:
 		panic("unknown knob " + name)
 	}
@@ -1442,6 +1599,212 @@ var degenerate = []string{
 	"BA_DEF_ \"A\" FLOAT 10 0;\n", "BA_DEF_ \"A\" INT 10 0;\n", "BA_DEF_ \"A\" HEX 10 0;\n", "BA_DEF_ \"A\" FLOAT 0 10;\n",
 	"BA_DEF_ \"A\" FLOAT 10.5 0;\nBA_DEF_ \"B\" FLOAT 1 1;\nBA_DEF_ \"C\" FLOAT 2 1;\n",
 	"VAL_TABLE_ T 0 \"off\" 1 \"On\" ;\n", "VAL_TABLE_ T ;\n", "VAL_ 1 S ;\n",
+}
+
+// ---------------------------------------------------------------------------- boundary files
+
+type namedText struct{ category, text string }
+
+// lastLineSnippets returns definitions (without a trailing line feed) whose LAST line draws at least one diagnostic
+// of the analyzers run by cantool: in column 1 (definition-level reports) and in columns > 1 (signals, value
+// descriptions, indented definitions).
+func (g *gen) lastLineSnippets() []namedText {
+	id := func() int { return g.between(1, 0x7ff) }
+	sig := func(indent, name, rest string) string {
+		return fmt.Sprintf("BO_ %d %s: 8 Vector__XXX\n%sSG_ %s : %s", id(), g.camel(), indent, name, rest)
+	}
+	n1, n2 := g.camel(), g.camel()
+	return []namedText{
+		// column 1
+		{"col1:dupnode", fmt.Sprintf("BU_: %s %s %s", n1, n2, n1)},
+		{"col1:version", fmt.Sprintf("VERSION \"%s\"", g.choose("1.0", "x", "v 2"))},
+		{"col1:singleton", "BS_:\nBS_:"},
+		{"col1:msgname", fmt.Sprintf("BO_ %d %s: 8 Vector__XXX", id(), g.nonCamel())},
+		{"col1:msgtx", fmt.Sprintf("BO_ %d %s: %d Ghost%s", id(), g.camel(), g.between(0, 8), g.camel())},
+		{"col1:attrint", fmt.Sprintf("BA_DEF_ \"%s\" INT %d %d;", g.camel(), g.between(1, 50), -g.between(0, 50))},
+		{"col1:attrfloat", fmt.Sprintf("BA_DEF_ BO_ \"%s\" FLOAT 10.5 0;", g.camel())},
+		{"col1:txbu", fmt.Sprintf("BO_TX_BU_ %d : Ghost%s;", id(), g.camel())},
+		{"col1:envvar", fmt.Sprintf("EV_ %s: 0 [10|0] \"\" 0 %d DUMMY_NODE_VECTOR0 Vector__XXX;", g.camel(), g.between(1, 99))},
+		{"col1:unknown", g.choose("FOO_ 1 2 3", "X", "UNKNOWN_ x")},
+		{"col1:order", fmt.Sprintf("BO_ %d %s: 8 Vector__XXX\nBU_: %s", id(), g.camel(), n1)},
+		// columns > 1
+		{"colN:signame", sig(" ", g.nonCamel(), "0|8@1+ (1,0) [0|0] \"\" Vector__XXX")},
+		{"colN:sigbounds", sig("  ", g.camel(), fmt.Sprintf("%d|8@1+ (1,0) [0|0] \"\" Vector__XXX", g.between(64, 200)))},
+		{"colN:reserved", sig("\t", "Reserved"+g.camel(), "0|8@1+ (1,0) [0|0] \"V\" Vector__XXX")},
+		{"colN:siunit", sig(" ", g.camel(), fmt.Sprintf("0|8@1+ (1,0) [0|0] \"%s\" Vector__XXX", nonSIUnits[g.r.Intn(len(nonSIUnits))]))},
+		{"colN:suffix", sig("\t\t", g.camel()+"X", "0|8@1+ (1,0) [0|0] \"km/h\" Vector__XXX")},
+		{"colN:interval", sig(" ", g.camel(), "0|8@1+ (1,0) [10|-10] \"\" Vector__XXX")},
+		{"colN:receiver", sig(" ", g.camel(), fmt.Sprintf("0|8@1+ (1,0) [0|0] \"\" Ghost%s,Vector__XXX,Ghost%s", g.camel(), g.camel()))},
+		{"colN:mux", sig(" ", g.camel(), "0|8@1+ (1,0) [0|0] \"\" Vector__XXX") + "\n SG_ " + g.camel() + " m3 : 8|8@1+ (1,0) [0|0] \"\" Vector__XXX"},
+		{"colN:combo", sig("   ", "reserved_x", "70|1@1- (1,0) [10|-10] \"kph\" Ghost1,Vector__XXX,Ghost2")},
+		{"colN:valtable", fmt.Sprintf("VAL_TABLE_ %s 0 \"off\" 1 \"On\" %d \"not ok\" ;", g.camel(), g.between(2, 100000))},
+		{"colN:valdesc", fmt.Sprintf("VAL_ %d %s -5 \"snake_case\" ;", id(), g.camel())},
+		{"colN:indent-version", g.choose("  ", "\t", " \t ") + "VERSION \"x\""},
+		{"colN:indent-dupnode", g.choose(" ", "\t\t") + fmt.Sprintf("BU_: %s %s", n2, n2)},
+		{"colN:sameline", fmt.Sprintf("BS_: BU_: %s %s VERSION \"late\"", n1, n1)},
+	}
+}
+
+// onlyFiles returns, for each of the 19 analyzers run by cantool, a file whose diagnostics all belong to that one
+// analyzer (the driver confirms this with the model): a dropped, renamed or reordered analyzer shows in the output.
+func (g *gen) onlyFiles() []namedText {
+	const hdr = "VERSION \"\"\n\nNS_ :\n\nBS_:\n\nBU_: NodeA NodeB\n\n"
+	id := func() int { return g.between(1, 0x7ff) }
+	bo := func(sigs ...string) string {
+		t := fmt.Sprintf("BO_ %d %s: 8 NodeA\n", id(), g.camel())
+		for _, sg := range sigs {
+			t += " SG_ " + sg + " NodeB\n"
+		}
+		return t
+	}
+	plain := "0|8@1+ (1,0) [0|100] \"\""
+	i1 := id()
+	n := g.camel()
+	files := []namedText{
+		{"definitiontypeorder", "VERSION \"\"\n\nNS_ :\n\nBU_: NodeA NodeB\n\nBS_:\n\n" + bo(g.camel()+" : "+plain)},
+		{"intervals", hdr + bo(g.camel()+" : "+plain) + fmt.Sprintf("BA_DEF_ \"%s\" INT %d 0;\n", g.camel(), g.between(1, 99))},
+		{"lineendings", "VERSION \"\"\r\n\nNS_ :\n\nBS_:\n\nBU_: NodeA NodeB\n\n" + bo(g.camel()+" : "+plain)},
+		{"messagenames", hdr + fmt.Sprintf("BO_ %d %s: 8 NodeA\n", id(), g.nonCamel())},
+		{"multiplexedsignals", hdr + bo(g.camel()+" m"+strconv.Itoa(g.between(0, 9))+" : "+plain)},
+		{"newsymbols", "VERSION \"\"\n\nNS_ :\n\tCM_\n\tBA_DEF_\n\nBS_:\n\nBU_: NodeA NodeB\n\n" + bo(g.camel()+" : "+plain)},
+		{"nodereferences", hdr + fmt.Sprintf("BO_ %d %s: 8 Ghost%s\n", id(), g.camel(), g.camel())},
+		{"noreservedsignals", hdr + bo("Reserved"+g.camel()+" : "+plain)},
+		{"requireddefinitions", "VERSION \"\"\n\nNS_ :\n\nBU_: NodeA NodeB\n\n" + bo(g.camel()+" : "+plain)},
+		{"signalbounds", hdr + bo(fmt.Sprintf("%s : %d|8@1+ (1,0) [0|100] \"\"", g.camel(), g.between(64, 500)))},
+		{"signalnames", hdr + bo(g.nonCamel()+" : "+plain)},
+		{"singletondefinitions", "VERSION \"\"\nVERSION \"\"\n\nNS_ :\n\nBS_:\nBS_:\n\nBU_: NodeA NodeB\n\n" + bo(g.camel()+" : "+plain)},
+		{"siunits", hdr + bo(fmt.Sprintf("%s : 0|8@1+ (1,0) [0|100] \"%s\"", g.camel(), nonSIUnits[g.r.Intn(len(nonSIUnits))]))},
+		{"uniquemessageids", hdr + fmt.Sprintf("BO_ %d %s: 8 NodeA\nBO_ %d %s: 8 NodeB\n", i1, g.camel(), i1, g.camel())},
+		{"uniquenodenames", "VERSION \"\"\n\nNS_ :\n\nBS_:\n\nBU_: NodeA NodeB NodeA\n\n" + bo(g.camel()+" : "+plain)},
+		{"uniquesignalnames", hdr + bo(n+" : "+plain, n+" : 8|8@1+ (1,0) [0|100] \"\"")},
+		{"unitsuffixes", hdr + bo(fmt.Sprintf("%s : 0|8@1+ (1,0) [0|100] \"%s\"", g.camel()+"X", siUnits[g.r.Intn(len(siUnits))][0]))},
+		{"valuedescriptions", hdr + fmt.Sprintf("VAL_TABLE_ %s 0 \"%s\" 1 \"On\" ;\n", g.camel(), g.choose("off", "not ok", "snake_case"))},
+		{"version", "VERSION \"" + g.choose("1.0", "x") + "\"\n\nNS_ :\n\nBS_:\n\nBU_: NodeA NodeB\n\n" + bo(g.camel()+" : "+plain)},
+	}
+	for i := range files {
+		files[i].category = "boundary:only:" + files[i].category
+	}
+	return files
+}
+
+// countFile returns a file that draws exactly k diagnostics: k messages with a name that is not CamelCase, or (two
+// passes) k/2 such messages each with one signal whose name is not CamelCase, plus one more message when k is odd.
+func (g *gen) countFile(k int, twoPasses bool) string {
+	var sb strings.Builder
+	sb.WriteString("VERSION \"\"\n\nNS_ :\n\nBS_:\n\nBU_: NodeA NodeB\n\n")
+	id := 0
+	msg := func(bad, badSig bool) {
+		id++
+		name := fmt.Sprintf("Msg%d", id)
+		if bad {
+			name = fmt.Sprintf("MSG_%d", id)
+		}
+		fmt.Fprintf(&sb, "BO_ %d %s: 8 NodeA\n", id, name)
+		if badSig {
+			fmt.Fprintf(&sb, " SG_ sig_%d : 0|8@1+ (1,0) [0|100] \"\" NodeB\n", id)
+		}
+		if g.chance(0.3) {
+			sb.WriteString("\n")
+		}
+	}
+	if !twoPasses {
+		for i := 0; i < k; i++ {
+			msg(true, false)
+		}
+	} else {
+		for i := 0; i < k/2; i++ {
+			msg(true, true)
+		}
+		if k%2 == 1 {
+			msg(true, false)
+		}
+	}
+	msg(false, false) // and a clean one
+	return sb.String()
+}
+
+const minimalPreamble = "VERSION \"\"\n\nNS_ :\n\nBS_:\n\nBU_: NodeA NodeB\n"
+
+// boundaryFiles: the snippets in every position relative to the ends of the text and with every kind of line
+// ending, truncated files (parse errors at the very end of the text) and files with many diagnostics of many passes.
+func (g *gen) boundaryFiles() []namedText {
+	var out []namedText
+	crlf := func(t string) string { return strings.ReplaceAll(t, "\n", "\r\n") }
+	withNL := func(t string) string {
+		if strings.HasSuffix(t, "\n") {
+			return t
+		}
+		return t + "\n"
+	}
+	for _, sn := range g.lastLineSnippets() {
+		pre := minimalPreamble
+		if g.chance(0.5) {
+			pre = withNL(g.build(knobs{}))
+		}
+		s := sn.text
+		add := func(layout, text string) {
+			out = append(out, namedText{"boundary:" + sn.category + ":" + layout, text})
+		}
+		add("last-nonl", pre+s)                               // diagnostic on the last line, no line feed after it
+		add("last-nl", pre+s+"\n")                            // the same line, terminated
+		add("only-nonl", s)                                   // the snippet is the whole text
+		add("last-blanks", pre+s+g.choose(" ", "  \t", "\t")) // blanks, but no line feed, after it
+		add("last-cr", pre+s+"\r")                            // a lone carriage return at the end
+		add("crlf-nonl", crlf(pre)+crlf(s))                   // CRLF everywhere but at the end
+		add("crlf-nl", crlf(pre+s+"\n"))                      // uniform CRLF
+		add("blank-lines-first", g.choose("\n", "\n\n\n", "\r\n\n")+s)
+		add("first", s+"\n"+pre) // diagnostic on line 1 (and what follows is then out of order)
+		add("first-last", s+"\n"+strings.TrimRight(pre, "\n")+"\n"+s)
+	}
+	out = append(out, g.onlyFiles()...)
+	for _, k := range []int{1, 2, 255, 256, 257, 512} {
+		out = append(out, namedText{fmt.Sprintf("boundary:count:%x", k), g.countFile(k, false)})
+		if k > 2 {
+			out = append(out, namedText{fmt.Sprintf("boundary:count:%x", k), g.countFile(k, true)})
+		}
+	}
+	// truncated files: the parser stops with an error at (or near) the end of the text
+	for _, t := range []string{"BO_", "BO_ x", "BO_ 1", "VERSION", "VERSION \"abc", "BU_: A\nBO_ 1", "BS_:\n123", "BS_:\n;",
+		"BS_:\nBU_: A\n\"", "BU_: A\nVAL_ 1 S 0", "BU_: A\r\nBO_ 1 M: 8", "\n\nBO_", "BA_DEF_ \"A\" INT 1", "CM_ \"unterminated",
+		"BO_ 1 M: 8 X\n SG_ S : 0|8@1+ (1,0) [0|0] \"\"", "BO_ 1 M: 8 X\n SG_ S : 0|8@1+ (1,0) [0|0] \"\" \n", "EV_ X: 0 [0|0]", "BU_: A\n\x00"} {
+		out = append(out, namedText{"boundary:trunc:fixed", t})
+	}
+	for i := 0; i < 40; i++ {
+		var k knobs
+		if i%2 == 1 {
+			for _, name := range knobNames {
+				if g.chance(0.1) {
+					k.set(name, 1)
+				}
+			}
+		}
+		t := g.build(k)
+		if len(t) < 2 {
+			continue
+		}
+		cut := g.between(1, len(t)-1)
+		if g.chance(0.5) { // inside the last quarter
+			cut = g.between(len(t)-len(t)/4, len(t)-1)
+		}
+		out = append(out, namedText{"boundary:trunc:random", t[:cut]})
+	}
+	// many diagnostics of many passes in one file
+	for i := 0; i < 4; i++ {
+		var k knobs
+		for _, name := range knobNames {
+			if i < 2 || g.chance(0.6) {
+				k.set(name, g.between(1, 3))
+			}
+		}
+		k.crlf = i%2 == 0
+		k.crlfLayout = 0
+		k.unknownFirst = false
+		k.big = i == 1
+		t := g.build(k)
+		out = append(out, namedText{"boundary:many", t})
+		out = append(out, namedText{"boundary:many:nonl", strings.TrimRight(t, "\r\n")})
+	}
+	return out
 }
 
 // ---------------------------------------------------------------------------- synthetic perturbation
@@ -1644,7 +2007,13 @@ func main() {
 		}
 		g := &gen{r: rand.New(rand.NewSource(1))}
 		oracleHeader(w, g)
-		checkFile(w, 0, "replay", text, nil, nil)
+		if len(os.Args) >= 4 { // with the repository root: also through the real cantool binary, alone
+			cli := newCliRunner(os.Args[3])
+			defer cli.close()
+			checkFile(w, 0, "replay", text, nil, cli, cliSingle)
+			return
+		}
+		checkFile(w, 0, "replay", text, nil, nil, cliNone)
 		return
 	}
 	if len(os.Args) < 4 {
@@ -1672,16 +2041,41 @@ func main() {
 		cliEvery = nfiles / cliSample
 	}
 	emit := func(category, text string, perturb func(*dbc.File)) {
-		var c *cliRunner
-		if cli != nil && (n%cliEvery == 0 || category == "degenerate" || category == "clean" || strings.HasPrefix(category, "rule:")) {
-			c = cli
+		mode := cliNone
+		switch {
+		case cli == nil || perturb != nil:
+		case strings.HasPrefix(category, "boundary:countdir:"):
+			mode = cliBatch // the members of one directory
+		case category == "degenerate" || strings.HasPrefix(category, "boundary:"):
+			mode = cliSingle // a crash on one of these must not hide anything else
+		case n%cliEvery == 0 || category == "clean" || strings.HasPrefix(category, "rule:"):
+			mode = cliBatch
 		}
-		checkFile(w, n, category, []byte(text), perturb, c)
+		checkFile(w, n, category, []byte(text), perturb, cli, mode)
+		if cli != nil {
+			cli.flush(w, false)
+		}
 		n++
 	}
 	// 1. degenerate files
 	for _, t := range degenerate {
 		emit("degenerate", t, nil)
+	}
+	// 1b. boundary files
+	for _, b := range g.boundaryFiles() {
+		emit(b.category, b.text, nil)
+	}
+	// 1c. directories whose files draw 256 / 512 diagnostics in total
+	if cli != nil {
+		for _, total := range []int{256, 512} {
+			cli.flush(w, true)
+			a := g.between(1, total-2)
+			c := g.between(1, total-a-1)
+			for _, part := range []int{a, c, total - a - c} {
+				emit(fmt.Sprintf("boundary:countdir:%x", total), g.countFile(part, g.chance(0.5)), nil)
+			}
+			cli.flush(w, true)
+		}
 	}
 	// 2. clean files (0 violations)
 	for i := 0; i < 12; i++ {
@@ -1727,6 +2121,9 @@ func main() {
 		default:
 			emit("clean", g.build(knobs{}), nil)
 		}
+	}
+	if cli != nil {
+		cli.flush(w, true)
 	}
 }
 
